@@ -119,6 +119,8 @@ class State:
     def __init__(self, oracle):
         self.oracle = oracle
         self.pc = []
+        self.assumed_ids = set()
+        self.branches = set()
         self.heap = {}
         self.ids = itertools.count(1)
         self.fresh = itertools.count()
@@ -189,6 +191,7 @@ class Engine:
         if z3.is_true(c):
             return
         self.st.pc.append(c)
+        self.st.assumed_ids.add(c.get_id())      # provenance for the contradiction guard (an assumption, not a branch decision)
         if z3.is_false(c):
             raise PathEnd('assumption false')
 
@@ -205,6 +208,12 @@ class Engine:
             return True
         if z3.is_false(c):
             return False
+        v = self._branch(c)
+        if getattr(self, 'in_body', False) and not getattr(self, 'in_spec', False):
+            self.st.branches.add((getattr(self, 'cur_stmt_line', 0), v))      # for the branch-coverage vacuity guard
+        return v
+
+    def _branch(self, c):
         orc = self.st.oracle
         if orc.replaying():
             e = orc.next_entry()
@@ -247,6 +256,10 @@ class Engine:
             return z3.BoolVal(False)
         if k in ('bytes', 'str', 'seq'):
             return z3.Length(v.t) != 0
+        if k == 'const' and getattr(v.t, 'is_iterator', False):
+            return z3.BoolVal(True)
+        if k == 'const' and hasattr(v.t, 'items') and v.t.__class__.__name__ == 'Items':
+            return z3.BoolVal(len(v.t.items) > 0)
         if k == 'const':
             return z3.BoolVal(bool(v.t))
         if k == 'tuple':
